@@ -48,7 +48,7 @@ var c13ReqHeaders = [][2]string{{"Accept", "application/xml"}, {"Accept", "text/
 	{"Referer", "https://elsewhere.example/x"}, {"Prefer", "return=minimal"}, {"Sec-Fetch-Mode", "cors"}, {"Content-Language", "en"}}
 
 var c13Defects = []Defect{
-	{Name: "issuer-absent"}, {Name: "issuer-empty"}, {Name: "issuer-unregistered"}, {Name: "issuer-case"}, {Name: "issuer-blank"},
+	{Name: "issuer-absent"}, {Name: "issuer-empty"}, {Name: "issuer-unregistered"}, {Name: "issuer-case"}, {Name: "issuer-blank"}, {Name: "issuer-slash"}, {Name: "issuer-slash"}, {Name: "issuer-suffix", Param: "/."}, {Name: "issuer-suffix", Param: "?"}, {Name: "issuer-suffix", Param: "#"},
 	{Name: "issued-future", Param: "10"}, {Name: "issued-future", Param: "3600"}, {Name: "issued-future", Param: "315360000"}, {Name: "issued-future", Param: "1"},
 	{Name: "noa-past", Param: "10"}, {Name: "noa-past", Param: "3600"}, {Name: "noa-past", Param: "315360000"}, {Name: "noa-past", Param: "1"},
 	{Name: "issued-garbage", Param: "now"}, {Name: "issued-garbage", Param: "dateonly"}, {Name: "issued-garbage", Param: "month13"}, {Name: "issued-garbage", Param: "lowerz"},
@@ -90,6 +90,8 @@ func genC13Case(t *rapid.T) C13Case {
 	if rapid.Bool().Draw(t, "reason") {
 		l.Reason = "urn:oasis:names:tc:SAML:2.0:logout:user"
 	}
+	// the Version attribute in other lexical forms (what an IdP makes of them is its business; its reply is held to the same rules)
+	l.Version = rapid.SampledFrom([]string{"2.0", "2.0", "2.0", "2.0", "1.1", "2.1", "2", " 2.0", "", A}).Draw(t, "version")
 	if rapid.IntRange(0, 2).Draw(t, "qualifier") == 0 {
 		l.SPNameQualifier = spec.SPs[rapid.IntRange(0, len(spec.SPs)-1).Draw(t, "qualsp")].EntityID
 		if rapid.Bool().Draw(t, "namequal") {
@@ -152,6 +154,19 @@ func genC13Case(t *rapid.T) C13Case {
 		case "issuer-blank":
 			if l.Issuer != A {
 				l.Issuer = " " + l.Issuer
+			}
+		case "issuer-slash":
+			// one slash more or less than the registered entity ID
+			if l.Issuer != A && l.Issuer != "" {
+				if strings.HasSuffix(l.Issuer, "/") {
+					l.Issuer = strings.TrimSuffix(l.Issuer, "/")
+				} else {
+					l.Issuer += "/"
+				}
+			}
+		case "issuer-suffix":
+			if l.Issuer != A && l.Issuer != "" {
+				l.Issuer += d.Param
 			}
 		case "issued-future":
 			l.IssueInstant = "@now+" + d.Param
